@@ -135,6 +135,16 @@ CHECKS.update({
             "DESIGN.md section 4, C18"),
 })
 
+CHECKS.update({
+    "C19": ("Hypothesis-generated Entire generator sets, all listing orders, old file maps and reload modes against a reference model of selection / upload / reload / diff",
+            "1..5 generated Entire generators in every listing order (<=120), old file maps and reload/acl_safe modes through "
+            "run_file_generators, PCDeployerJob.parse_result and pc_diff: content from the max-priority generator, upload exactly when "
+            "content differs or forced, reload only when enabled, diff shown iff contents differ. One recorded finding (terminator-only / "
+            "absent-vs-empty differences) is listed in known_findings.json and excluded from the remaining assertions. Exploration.",
+            "Trusted: the reference model in vf/props/c19.py; own DeployDriver stub with an empty session wrapper.",
+            "DESIGN.md section 4, C19"),
+})
+
 NOT_YET = {}
 
 
